@@ -290,6 +290,42 @@ def build():
                   'if overlays and include_overlays:': dict(assigns={'rvar': 'Obj'}, modifies=['$alloc'])},
         hints={'ghost_out': ['g_base'], 'ext_funcs': X7})
 
+    # F7b  the same function where no rewrite applies (view `raw`: ignore_rewrites, not a global): the range variable ranges over the tables of exactly
+    #      _get_typeref_descendants(type, include_descendants, for_mutation) -- a read that skips subtypes never picks up the shared inheritance CTE, which holds the type
+    #      AND all its descendants (cache invariant: the CTE filed under a type id ranges over all descendants of that type).  TY(x) = the types a relation / range variable
+    #      ranges over (write-once history predicate, like RWOF).
+    w.ufunc('TY', ['Obj'], 'Seq[TRf]'); w.ufunc('DESC', ['TRf', 'bool', 'bool'], 'Seq[TRf]'); w.ufunc('ALLD', ['Obj'], 'Seq[TRf]')
+    w.refdict('ICTED', 'Map[Obj,Obj]'); w.classes['PCtx']['type_inheritance_ctes'] = 'ICTED'
+    w.trusted.append('relctx raw branch (assumed contracts): _selects_for_typeref_descendants gives one select per listed type; the UNION built from them, a CTE over it, a range variable over that '
+                     'and a sub-relation including that range over exactly those types; _get_typeref_descendants(t, inc, mut) is [t] unless (inc and not mut), and then all descendants of t')
+    ICINV = lambda c: 'forall(Obj, lambda ti: implies(ti in %s.type_inheritance_ctes, TY(%s.type_inheritance_ctes[ti]) == ALLD(ti)))' % (c, c)
+    XR7 = dict(X7)
+    XR7.update({
+        '_get_typeref_descendants': dict(params={'t': 'TRf', 'include_descendants': 'bool', 'for_mutation': 'bool'}, returns='Seq[TRf]', returns_expr='DESC(t, include_descendants, for_mutation)',
+                                         ensures=['implies(not (include_descendants and not for_mutation), len(result) == 1)', 'implies(include_descendants and not for_mutation, result == ALLD(t.id))']),
+        '_selects_for_typeref_descendants': dict(params={'descs': 'Seq[TRf]', 'path_id': 'Obj', 'ctx': 'PCtx'}, returns='Obj', modifies=['$alloc'], ensures=['TY(result) == descs']),
+        'range_from_queryset': dict(params={'ops': 'Obj', 'name': 'Obj', 'lateral': 'bool', 'path_id': 'Obj', 'typeref': 'TRf', 'tag': 'str', 'ctx': 'PCtx'}, returns='Obj', modifies=['$alloc'],
+                                    ensures=['TY(result) == TY(ops)']),
+        'pgast.CommonTableExpr': dict(params={'name': 'str', 'query': 'Obj', 'materialized': 'bool'}, returns='Obj', modifies=['$alloc'], ensures=['not old(allocated(result))', 'TY(result) == TY(query)']),
+        'rvar_for_rel': dict(params={'rel': 'Obj', 'typeref': 'TRf', 'alias': 'str', 'lateral': 'bool', 'ctx': 'PCtx'}, optional=('alias', 'lateral'), returns='Obj', modifies=['$alloc'],
+                             ensures=['TY(result) == TY(rel)']),
+        'include_rvar': dict(params={'rel': 'Obj', 'rvar': 'Obj', 'path_id': 'Obj', 'pull_namespace': 'bool', 'ctx': 'PCtx'}, returns='none', ensures=['TY(rel) == TY(rvar)']),
+        'irast.PathId.from_typeref': dict(params={'t': 'TRf', 'namespace': 'Set[str]'}, returns='Obj')})
+    w.contract(REL, 'range_for_material_objtype', view='raw',
+        params={'typeref': 'TRf', 'path_id': 'PId', 'for_mutation': 'bool', 'lateral': 'bool', 'include_overlays': 'bool', 'include_descendants': 'bool', 'ignore_rewrites': 'bool',
+                'is_global': 'bool', 'dml_source': 'Seq[Obj]', 'ctx': 'PCtx'}, returns='Obj',
+        ghost={'g_base': 'Obj'}, requires=['ignore_rewrites and not is_global', ICINV('ctx')],
+        modifies=['ICTED.m', 'PCtx.ordered_type_ctes', '$alloc'],
+        ensures=[ICINV('ctx'), 'TY(g_base) == DESC(typeref.real_material_type, include_descendants, for_mutation)'],
+        raises={'ValueError': {}, 'AssertionError': {}},
+        ghost_after={'overlays = get_type_rel_overlays(typeref, dml_source=dml_source, ctx=ctx)': [('g_base', 'rvar')]},
+        abstract={'dml_source_key = frozenset(dml_source) if ctx.trigger_mode and dml_source else None': dict(assigns={'dml_source_key': 'Opt[Obj]'}, modifies=[]),
+                  'ops = [(context.OverlayOp.UNION, select) for select in inheritance_selects]': dict(assigns={'ops': 'Obj'}, ensures=['TY(ops) == TY(inheritance_selects)']),
+                  'type_qry: pgast.SelectStmt = inheritance_selects[0]': dict(assigns={'type_qry': 'Obj'}),
+                  'for rarg in inheritance_selects[1:]:': dict(assigns={'type_qry': 'Obj'}, modifies=['$alloc'], ensures=['TY(type_qry) == TY(inheritance_selects)']),
+                  'if overlays and include_overlays:': dict(assigns={'rvar': 'Obj'}, modifies=['$alloc'])},
+        hints={'ghost_out': ['g_base'], 'ext_funcs': XR7})
+
     # F8  setgen.new_set -- "absolutely all ir.Set instances must be created using this constructor": when it returns a set over an object type that does not say
     #     ignore_rewrites (and query rewrites are on), the key (type, skip_subtypes) is registered in the environment's table of rewrites (by try_type_rewrite now, or earlier);
     #     and the set says ignore_rewrites only if the caller asked for it or should_ignore_rewrite said so while access policies are being compiled.
@@ -342,9 +378,11 @@ def build():
     w.classes['TRf']['real_material_type'] = 'TRf'
     HASRW = '((typeref.real_material_type.id, True) in env.type_rewrites or (typeref.real_material_type.id, False) in env.type_rewrites)'
     w.contract(PCX, 'has_type_rewrite', params={'typeref': 'TRf', 'env': 'PEnv'}, returns='bool', ensures=['result == %s' % HASRW])
-    w.ext_funcs['str'] = dict(params={'o': 'Obj'}, returns='str')
+    w.ufunc('STR', ['Obj'], 'str'); w.ext_funcs['str'] = dict(params={'o': 'Obj'}, returns='str', returns_expr='STR(o)')
+    w.classes['Obj']['name'] = 'str'      # (a qualified name's local part)
+    # the one exemption is the type whose QUALIFIED name is schema::ObjectType (its hidden objects are not user visible); every other type with a rewrite needs it
     w.contract(PCX, 'link_needs_type_rewrite', params={'typeref': 'TRf', 'env': 'PEnv'}, returns='bool',
-        ensures=['implies(result, %s)' % HASRW, 'implies(%s and not result, NAMEIS_SCHEMA_OBJECTTYPE)' % HASRW] if False else ['implies(result, %s)' % HASRW])
+        ensures=['implies(result, %s)' % HASRW, 'implies(%s and STR(typeref.real_material_type.name_hint) != "schema::ObjectType", result)' % HASRW])
     return w
 
 # ---------------------------------------------------------------------------------------------------------------------
